@@ -36,7 +36,17 @@ Section LruBridge.
            | H : true = false |- _ => discriminate H
            | H : false = true |- _ => discriminate H
            end.
-  Ltac crush := repeat (proj; inner; clean); proj; simpl; try congruence; auto.
+  (* residual arithmetic (m_used_size += 1 for ++m_used_size, < 1 for == 0, ...) *)
+  Ltac arith :=
+    solve [ repeat match goal with
+                   | H : (_ <? _) = true |- _ => apply Nat.ltb_lt in H
+                   | H : (_ <? _) = false |- _ => apply Nat.ltb_ge in H
+                   | H : (_ =? _) = true |- _ => apply Nat.eqb_eq in H
+                   | H : (_ =? _) = false |- _ => apply Nat.eqb_neq in H
+                   | H : (_ <=? _) = true |- _ => apply Nat.leb_le in H
+                   | H : (_ <=? _) = false |- _ => apply Nat.leb_gt in H
+                   end; first [ exfalso; lia | f_equal; lia | lia ] ].
+  Ltac crush := repeat (proj; inner; clean); proj; simpl; try congruence; auto; try arith.
 
   Lemma g_do_access_ok (s : lrul K V) (i : nat) :
     req (g_do_access s i) (do e <- vget "m_elements[element_idx]" (ll_elems s) i; ll_access false s e).
@@ -47,7 +57,7 @@ Section LruBridge.
 
   (* use of an already bridged callee: its lemma goes in front of the goal, the case analysis does the rest *)
   Ltac callee L := let P := fresh "P" in pose proof L as P; unfold req in P; revert P.
-  Ltac finish := intros; clean; subst; try contradiction; try congruence; auto.
+  Ltac finish := intros; clean; subst; try contradiction; try congruence; auto; try arith.
 
   Lemma g_do_prune_ok (s : lrul K V) : req (g_do_prune s) (ll_do_prune s).
   Proof.
